@@ -28,6 +28,10 @@ def run(chk, ctx):
         chk.require(ext == [["signals", "Iterator::map(Vec::drain(self.virtual_signals, ops::RangeFull{}), closure({closure#0}))"]], "ORG", "ORG:with_signals:virtual-appended-in-order", "signals.extend(virtual_signals.drain(..).map(..))", "virtual signals appended by %s" % ext)
     handle_io_order_rule(chk, P)
     swap_pair_rule(chk, P)
+    # every virtual signal is evaluated, with or without a column of its own: the layout loop classifies an entry as Virtual
+    # exactly by the signal's type (three-way table shared with C03)
+    from . import c03
+    c03.run(chk.only(("build_output_indices:three-way", "build_output_indices:exact-three-way")), ctx)
     # with the variables swapped out, a name resolves to the device output: outputs are consulted exactly on the None edge of the variable lookup
     get_shape_rule(chk, P)
     # the only evaluator of OutputEntryIndex::Virtual
